@@ -84,6 +84,7 @@ package fri
 //@   ensures seg_eq(res.Batches[0].Values, len(c.Constants) + len(c.PlonkSigmas) + len(c.Wires) + len(c.PlonkZs), c.PartialProducts)
 //@   ensures seg_eq(res.Batches[0].Values, len(c.Constants) + len(c.PlonkSigmas) + len(c.Wires) + len(c.PlonkZs) + len(c.PartialProducts), c.QuotientPolys)
 //@   ensures len(res.Batches[1].Values) == len(c.PlonkZsNext) && seg_eq(res.Batches[1].Values, 0, c.PlonkZsNext)
+//@   ensures implies(canonQEs(c.Constants) && canonQEs(c.PlonkSigmas) && canonQEs(c.Wires) && canonQEs(c.PlonkZs) && canonQEs(c.PlonkZsNext) && canonQEs(c.PartialProducts) && canonQEs(c.QuotientPolys), canonOpeningBatches(res))
 
 // ------------------------------------------------------------------ subgroup points
 // x = g * w^bitreverse(index): the exponentiation consumes the index bits from the most significant one.
@@ -241,7 +242,7 @@ package fri
 //@   props C13 C20 C05
 //@   circuit
 //@   requires chipok(f.gl) && canonQE(zeta) && cd_small(f.commonData)
-//@   ensures len(res.Oracles) == 4 && len(res.Batches) == 2
+//@   ensures len(res.Oracles) == 4 && len(res.Batches) == 2 && oracles_small(res) && canonQE(res.Batches[0].Point)
 //@   ensures res.Oracles[0].NumPolys == f.commonData.NumConstants + f.commonData.Config.NumRoutedWires && res.Oracles[1].NumPolys == f.commonData.Config.NumWires
 //@   ensures res.Oracles[2].NumPolys == f.commonData.Config.NumChallenges * (1 + f.commonData.NumPartialProducts) && res.Oracles[3].NumPolys == f.commonData.Config.NumChallenges * f.commonData.QuotientDegreeFactor
 //@   ensures !res.Oracles[0].Blinding && res.Oracles[1].Blinding && res.Oracles[2].Blinding && res.Oracles[3].Blinding
